@@ -93,7 +93,8 @@ def monotone (o : Obs δ) : Bool :=
 def labelsExist (o : Obs δ) : Bool :=
   !(o.kind = .emit && o.isAssembler && o.ret = 0) || o.labelRefs.all (· < o.before.labels)
 
-/-- an accepted AArch64 instruction names only registers its 5-bit fields can hold -/
+/-- an accepted instruction names only registers that exist: AArch64 ids fit the 5-bit (or, by element, 4-bit) field; x86 under strict
+validation ids fit the register file (a virtual id only in a Compiler) -/
 def physIdsEncodable (o : Obs δ) : Bool :=
   !(o.kind = .emit && o.ret = 0) || o.physIds.all (fun p => p.1 ≤ p.2)
 
